@@ -45,8 +45,12 @@ def apply_edits(root, edits):
 def facts_for(root, tag):
     out = os.path.join(VERIF, 'build', 'facts-selftest-%s.json' % tag)
     env = dict(os.environ, VERIF_REPO=root, CARGO_NET_OFFLINE='true')
+    slot = os.environ.get('VERIF_SELFTEST_SLOT')
+    if slot:
+        # parallel self-tests: one cargo target directory (and one lock) per worker
+        env['VERIF_TARGET_DIR'] = os.path.join(VERIF, 'build', 'target_st_%s' % slot)
     import fcntl
-    with open(os.path.join(VERIF, 'build', '.lock'), 'w') as lk:
+    with open(os.path.join(VERIF, 'build', '.lock%s' % (slot or '')), 'w') as lk:
         fcntl.flock(lk, fcntl.LOCK_EX)
         r = subprocess.run([os.path.join(VERIF, 'rules', 'gen_facts.sh'), out], env=env, stdout=subprocess.PIPE, stderr=subprocess.STDOUT, text=True)
     if r.returncode != 0:
@@ -91,14 +95,33 @@ def run_spec(prop, spec, keep=False):
         shutil.rmtree(root, ignore_errors=True)
 
 
+def _init_worker():
+    import multiprocessing
+    ident = multiprocessing.current_process()._identity
+    os.environ['VERIF_SELFTEST_SLOT'] = str(ident[0] if ident else 0)
+
+
+def _run_spec_safe(prop, spec):
+    try:
+        return run_spec(prop, spec)
+    except Exception as e:   # a crashed self-test is a missed one (fail closed), never silently dropped
+        return dict(id=spec['id'], status='false-alarm' if spec.get('expect_silent') else 'missed', keys=['self-test crashed: %s' % str(e)[:200]], expect=spec.get('expect'))
+
+
 def run_all(prop, R, seed=0):
     specs = load_specs(prop)
     if seed:
         import random
         random.Random(seed).shuffle(specs)
     res = []
-    for s in specs:
-        r = run_spec(prop, s)
+    jobs = int(os.environ.get('VERIF_JOBS') or max(1, min(12, (os.cpu_count() or 2) - 2)))
+    if jobs > 1 and len(specs) > 1:
+        import multiprocessing
+        with multiprocessing.get_context('fork').Pool(min(jobs, len(specs)), initializer=_init_worker) as pool:
+            results = pool.starmap(_run_spec_safe, [(prop, s) for s in specs], chunksize=1)
+    else:
+        results = [_run_spec_safe(prop, s) for s in specs]
+    for r in results:
         res.append(r)
         if r['status'] == 'stale':
             R.note('self-test stale (not a property violation): %s: %s' % (r['id'], r.get('detail')))
